@@ -128,7 +128,8 @@ const TIGHT_IN: usize = 28;
 const TIGHT_OUT: usize = 29;
 const PARTIAL_MOVED: usize = 30;
 const DELTA_OK: usize = 31;
-const NC: usize = 32;
+const NEAR_INT: usize = 32;
+const NC: usize = 33;
 
 #[derive(Clone)]
 struct Stats {
@@ -562,6 +563,72 @@ fn run_box(ctx: &Ctx, capped: &AtomicBool, prices: &[u128], liqs: &[u128], amoun
         .reduce(Stats::default, Stats::merge)
 }
 
+// ---- near-integer liquidities --------------------------------------------------------------------------------------
+/// Denominators of the continued-fraction convergents of num/den (den > 0), up to `max`: the values q for which q*num/den is
+/// closest to an integer among all smaller multipliers. With num/den = (p_hi - p_lo)*2^64 / (p_lo*p_hi) these are the
+/// liquidities whose exact token-A amount lies within 1/(p_lo*p_hi)*den/q' of an integer — from below and from above
+/// alternately — which is where a rounding done in two steps, on a truncated intermediate, or in the wrong direction shows.
+fn convergent_denominators(num: &BigUint, den: &BigUint, max: &BigUint) -> Vec<u128> {
+    let (mut n, mut d) = (num % den, den.clone());
+    let (mut q_prev, mut q_cur) = (BigUint::one(), BigUint::zero()); // q_{-2}, q_{-1}
+    let mut out = vec![];
+    // first partial quotient is floor(num/den) (dropped by the reduction above: it only shifts the integer part)
+    let mut first = true;
+    while !d.is_zero() {
+        let a = if first { BigUint::zero() } else { &n / &d };
+        if !first {
+            let r = &n % &d;
+            n = std::mem::replace(&mut d, r);
+        } else {
+            // x = n/d < 1: a_0 = 0, continue with d/n
+            std::mem::swap(&mut n, &mut d);
+        }
+        first = false;
+        let q_next = &a * &q_cur + &q_prev;
+        q_prev = std::mem::replace(&mut q_cur, q_next);
+        if &q_cur > max {
+            break;
+        }
+        if let Some(q) = q_cur.to_u128() {
+            if q > 0 {
+                out.push(q);
+            }
+        }
+    }
+    out.dedup();
+    out
+}
+
+/// (p_lo, p_hi, L) triples with L a near-integer liquidity of the pair, for token A (x = L*d*2^64 / (p_lo*p_hi)) and for
+/// token B (x = L*d / 2^64).
+fn near_integer_triples(quick: bool) -> Vec<(u128, u128, u128)> {
+    let mut ticks: Vec<i32> = vec![-443636, -443635, -5632, -128, -64, -3, -2, -1, 0, 1, 2, 63, 64, 5632, 443634];
+    if !quick {
+        ticks.extend((2..=18).flat_map(|k| [1i32 << k, -(1i32 << k)]));
+        ticks.extend([-300000, -223027, -100000, -1000, 88, 1000, 100000, 223027, 300000]);
+    }
+    let ticks = sorted(ticks);
+    let widths: &[i32] = if quick { &[1, 64] } else { &[1, 2, 8, 64, 128, 32896] };
+    let max = BigUint::one() << 100u32;
+    let mut v = vec![];
+    for &t in &ticks {
+        for &w in widths {
+            if t + w > 443636 {
+                continue;
+            }
+            let (lo, hi) = (sqrt_price_from_tick_index(t), sqrt_price_from_tick_index(t + w));
+            let d = bu(hi - lo);
+            for q in convergent_denominators(&(&d << 64u32), &(bu(lo) * bu(hi)), &max) {
+                v.push((lo, hi, q));
+            }
+            for q in convergent_denominators(&d, &(BigUint::one() << 64u32), &max) {
+                v.push((lo, hi, q));
+            }
+        }
+    }
+    sorted(v)
+}
+
 // ---- U256Muldiv -----------------------------------------------------------------------------------------------------
 fn words_to_big(w: &[u64; 4]) -> BigUint {
     let mut b = [0u8; 32];
@@ -981,6 +1048,27 @@ pub fn run(ctx: &Ctx) -> Report {
     let s2d = run_box(ctx, &capped, &max_prices, &max_liqs, &unit_amt, &FEES_BOX, &p1);
     let t2 = ctx.elapsed();
 
+    // ---- (ii-b) near-integer liquidities (continued-fraction convergents) of tick-price pairs, both directions ----
+    let near = near_integer_triples(quick);
+    let s2e = near
+        .par_iter()
+        .map(|&(lo, hi, liq)| {
+            if ctx.left() < 0.0 {
+                capped.store(true, Ordering::Relaxed);
+                return Stats::default();
+            }
+            let mut st = run_triple(lo, hi, liq, &amounts_for(lo, hi, liq, &p1.base, &FEES_BOX), &FEES_BOX, Some(&p1));
+            st = st.merge(run_triple(hi, lo, liq, &amounts_for(hi, lo, liq, &p1.base, &FEES_BOX), &FEES_BOX, Some(&p1)));
+            // how close to an integer the exact token-A amount really is (vacuity guard: within 2^-32)
+            let q = exact_delta_a(lo, hi, liq);
+            let r = &q.n % &q.d;
+            if !r.is_zero() && q.floor().bits() <= 64 && ((&r << 32u32) < q.d || ((&q.d - &r) << 32u32) < q.d) {
+                st.c[NEAR_INT] += 1;
+            }
+            st
+        })
+        .reduce(Stats::default, Stats::merge);
+
     // ---- (iii) U256Muldiv ----
     let words: Vec<u64> = if quick {
         vec![0, 1, (1 << 63) - 1, 1 << 63, u64::MAX - 1, u64::MAX]
@@ -993,7 +1081,7 @@ pub fn run(ctx: &Ctx) -> Report {
     std::panic::set_hook(prev_hook);
 
     // ---- report ----
-    let phases = [("cross", &s1), ("box_ticks", &s2a), ("box_unit_2^64", &s2b), ("box_unit_min", &s2c), ("box_unit_max", &s2d)];
+    let phases = [("cross", &s1), ("box_ticks", &s2a), ("box_unit_2^64", &s2b), ("box_unit_min", &s2c), ("box_unit_max", &s2d), ("near_integer", &s2e)];
     let mut tot = Stats::default();
     for (name, s) in phases.iter() {
         r.set(&format!("steps_{name}"), s.c[EVALS]);
@@ -1076,6 +1164,8 @@ pub fn run(ctx: &Ctx) -> Report {
     r.guard("tightness_exact_in", tot.c[TIGHT_IN]);
     r.guard("tightness_exact_out", tot.c[TIGHT_OUT]);
     r.guard("amount_delta_ok", tot.c[DELTA_OK]);
+    r.set("near_integer_triples", near.len() as u64);
+    r.guard("near_integer_triples_with_u64_amount_a", tot.c[NEAR_INT]);
     r.guard("u256_knuth_d", us.c[U_PATH + 4]);
     r.guard("u256_single_word_divisor", us.c[U_PATH + 3]);
     r.guard("u256_qhat_corrected", us.c[U_QHAT]);
